@@ -1508,6 +1508,16 @@ func (x *Explorer) allocByName(name string) *ssa.Alloc {
 	return x.allocs[name]
 }
 
+// loopHead: b is entered by a back edge (it dominates one of its predecessors).
+func loopHead(b *ssa.BasicBlock) bool {
+	for _, p := range b.Preds {
+		if b.Dominates(p) {
+			return true
+		}
+	}
+	return false
+}
+
 func (x *Explorer) enterBlock(b, pred *ssa.BasicBlock, st *State) {
 	// 1. phi transfer, computed from the incoming state
 	type upd struct {
@@ -1531,7 +1541,11 @@ func (x *Explorer) enterBlock(b, pred *ssa.BasicBlock, st *State) {
 				break
 			}
 			u := upd{name: x.rn(phi)}
-			if pi >= 0 && (!isNumeric(phi.Type()) || !InCycle(b)) {
+			// (a numeric phi at the head of a loop is a counter: its key would
+			// grow with every iteration. A numeric phi that merely lies inside a
+			// loop body - `action := a; if c { action = f() }` - is an ordinary
+			// join and takes the key of the value that flowed in)
+			if pi >= 0 && (!isNumeric(phi.Type()) || !InCycle(b) || !loopHead(b)) {
 				k := x.key(phi.Edges[pi], st)
 				if !mentions(k, x.rn(phi)) && len(k) <= maxKeyLen {
 					u.key, u.ok = k, true
